@@ -46,7 +46,7 @@ func blindBytes(t *rapid.T, c elliptic.Curve, label string) []byte {
 	case 1:
 		return new(big.Int).Add(n, big.NewInt(int64(gen.UniformRange(t, 0, 1000, label+"/over")))).Bytes() // >= N
 	case 2:
-		return rapid.SliceOfN(rapid.Byte(), 70, 90).Draw(t, label+"/long") // far above N
+		return gen.Bytes(t, 70, 90, label+"/long") // far above N
 	case 3:
 		return gen.Pick(t, [][]byte{{}, {0}, {1}, new(big.Int).Sub(n, big.NewInt(1)).Bytes(), n.Bytes()}, label+"/special")
 	}
@@ -62,11 +62,11 @@ func context(t *rapid.T, label string) []byte {
 	case 2:
 		return []byte{0x00}
 	case 3:
-		return append([]byte{0x00, 0x05}, rapid.SliceOfN(rapid.Byte(), 0, 10).Draw(t, label)...)
+		return append([]byte{0x00, 0x05}, gen.Bytes(t, 0, 10, label)...)
 	case 4:
-		return rapid.SliceOfN(rapid.Byte(), 200, 600).Draw(t, label+"/long")
+		return gen.Bytes(t, 200, 600, label+"/long")
 	}
-	return rapid.SliceOfN(rapid.Byte(), 0, 40).Draw(t, label)
+	return gen.Bytes(t, 0, 40, label)
 }
 
 func key(t *rapid.T, c elliptic.Curve, b []byte) *patecdsa.PrivateKey {
@@ -87,7 +87,7 @@ func run(t *testing.T, c elliptic.Curve) {
 		sk := key(t, c, dB)
 		b1, b2 := blindBytes(t, c, "blind1"), blindBytes(t, c, "blind2")
 		ctx := context(t, "ctx")
-		digest := rapid.SliceOfN(rapid.Byte(), 0, 128).Draw(t, "digest")
+		digest := gen.Digest(t, "digest")
 		bk1, bk2 := key(t, c, b1), key(t, c, b2)
 		D1, D2 := new(big.Int).SetBytes(b1), new(big.Int).SetBytes(b2)
 		s.Eval()
@@ -159,7 +159,7 @@ func run(t *testing.T, c elliptic.Curve) {
 			fail("blind-unbound", "two different blinds (%x, %x) give the same blinded key under one context", b1, b2)
 			return
 		}
-		ctx2 := append(append([]byte{}, ctx...), rapid.SliceOfN(rapid.Byte(), 1, 4).Draw(t, "ctxsuffix")...)
+		ctx2 := append(append([]byte{}, ctx...), gen.Bytes(t, 1, 4, "ctxsuffix")...)
 		if rapid.Bool().Draw(t, "flipctx") && len(ctx) > 0 {
 			ctx2 = append([]byte{}, ctx...)
 			ctx2[gen.Uniform(t, len(ctx2), "ctxpos")] ^= 0x01
